@@ -3,7 +3,7 @@ import hashlib as _hashlib
 _c27_base = _hashlib.sha256(open(_os.path.join(_os.path.dirname(_os.path.abspath(_f)), 'c27_llbase.hpp'), 'rb').read()).hexdigest()[:16]
 
 target('c27_control', 'engines/ll/c27_control.cpp',
-       quick=dict(cases=24000, size=50), thorough=dict(cases=400000, size=80),
+       quick=dict(cases=72000, size=50), thorough=dict(cases=400000, size=80),
        extra_src=LL_SRC, cxxflags=['-DC27_LLBASE_SHA=0x' + _c27_base],
        # avoid=F-21c: while an instant is pending the central only sends empty PDUs (the deferred control PDU is
        # overwritten by later receptions on a tree without repair sketch 25); remove once F-21c is fixed in /repo
